@@ -189,4 +189,8 @@ def conditions(tier, seed):
     out = [make(s, to) for s in universe.catalogue(tier) if not isinstance(s, Bytes)]
     out += [make_sub(n, T, vals, to) for n, T, vals in _sub_cases()]
     out += [make_lit(l, to) for l in (Lit(1, 2, "a"), Lit("x", "y"), Lit(True, 3))]
+    # "the same on every call" of a long-lived routine: equal-but-distinct mapping keys in consecutive calls (shared with C05)
+    from vlib.props import c05
+
+    out.append(c05.make_keys(to))
     return out
